@@ -187,8 +187,26 @@ def run_repo_tests(prop: str, work: Path) -> dict:
         f.unlink()
     if out.exists():
         out.rmdir()
+    docs = {"files": 0, "blocks_ok": 0, "blocks_raised": 0}
+    if os.environ.get("LWVERIF_DOCS", "1") != "0":
+        try:
+            from . import docsrun  # noqa: PLC0415
+            r = docsrun.run_all(str(work / "docs"), repo)
+            docs["files"] = r["files"]
+            for d in r["results"]:
+                docs["blocks_ok"] += d.get("blocks_ok", 0)
+                docs["blocks_raised"] += d.get("blocks_raised", 0)
+                stats.update(d.get("stats", {}))
+                obs.extend(o for o in d.get("observations", []) if o["prop"] == prop)
+            dd = work / "docs"
+            if dd.exists():
+                for f in dd.glob("*"):
+                    f.unlink()
+                dd.rmdir()
+        except Exception as e:  # noqa: BLE001
+            docs["error"] = repr(e)
     return {"pytest_summary": tail, "wall_s": round(time.monotonic() - t0, 1), "stats": dict(stats),
-            "observations": obs}
+            "observations": obs, "docs": docs}
 
 
 def load_known() -> list[dict]:
@@ -310,6 +328,7 @@ def main_run(prop: str, tier: str, seed: int, replay: str | None = None) -> int:
             "known_findings_seen": seen_known,
             "repository_tests_under_monitors": None if repotests is None else {
                 "pytest_summary": repotests["pytest_summary"], "wall_s": repotests["wall_s"],
+                "documentation_examples": repotests.get("docs"),
                 "observations_for_this_property": len(repotests["observations"]),
                 "monitor_events": {k: v for k, v in sorted(repotests["stats"].items())
                                    if "postcond" in k or k in ("cmp", "cmp_amplitudes", "arg_checks", "events",
